@@ -18,15 +18,17 @@ def run(ctx):
     if thorough:
         for k in range(4):
             ctx.seed += 1000
-            ctx.corr(hx, ["all", "--scripts", "600", "--free", "400"], cases_name="cases%d.v" % k)
+            ctx.corr(hx, ["all", "--scripts", "600", "--free", "400", "--pkg", "150", "--pkgfree", "80"], cases_name="cases%d.v" % k)
         ctx.seed -= 4000
     else:
-        ctx.corr(hx, ["all", "--scripts", "250", "--free", "120"])
+        ctx.corr(hx, ["all", "--scripts", "250", "--free", "120", "--pkg", "60", "--pkgfree", "24"])
     ctx.assumptions += [
         "each API call and each worker goroutine is one thread of the model; sequential client code is a special case of the free interleaving",
         "a worker body does not itself block on the daemon (e.g. it does not call ShutdownAndWait and wait for it)",
         "Run: only under the guard that no worker is started after Run took its snapshot of the wait groups (D20b is a known finding)",
         "cancelling the context of a worker whose body has already returned is not counted as a cancel",
+        "the package-level functions (default instance) are driven in child processes of the harness, one scenario per process, "
+        "and judged by the same reference simulator, history predicate and Coq model as a New() instance",
         "scripted runs use <= 12 workers per daemon (sort.Slice is an insertion sort there; the order among equal shutdown orders is not compared)",
     ]
 
